@@ -231,7 +231,51 @@ def rule_unit_type(r):
                         m.lineno.get("parameters", 0), "an SLD unit on a non-SLD parameter")
 
 
+def rule_plumbing(r):
+    """Each number reaches the kernel argument it is named after, read in its declared unit: the expansion of vector
+    parameters keeps every attribute that decides how a value or width is interpreted."""
+    import ast
+    from .. import pyfacts as pf
+    mi = pf.lib("modelinfo")
+    MI = "sasmodels/modelinfo.py"
+    pp = mi.func("parse_parameter")
+    set_attrs = {}
+    for s_ in pf.walk_stmts(pp):
+        if isinstance(s_, ast.Assign) and isinstance(s_.targets[0], ast.Attribute) and pf.unparse(s_.targets[0].value) == "parameter":
+            set_attrs[s_.targets[0].attr] = s_
+    if len(set_attrs) < 4:
+        raise AnalysisError("parse_parameter: attribute assignments not found")
+    gc = mi.func("ParameterTable._get_call_parameters")
+    copied = {}
+    ctor = None
+    for s_ in pf.walk_stmts(gc):
+        if isinstance(s_, ast.Assign) and isinstance(s_.targets[0], ast.Attribute) and pf.unparse(s_.targets[0].value) == "pk":
+            copied[s_.targets[0].attr] = pf.unparse(s_.value)
+        if isinstance(s_, ast.Assign) and pf.unparse(s_.targets[0]) == "pk" and isinstance(s_.value, ast.Call):
+            ctor = s_
+    exempt = {"length": "an expanded entry is a scalar", "length_control": "an expanded entry has no control parameter"}
+    for attr, where in sorted(set_attrs.items()):
+        if attr in exempt:
+            r.ok(MI, "ParameterTable._get_call_parameters", "pk.%s not copied" % attr, gc.lineno, exempt[attr])
+            continue
+        ok = copied.get(attr) == "p.%s" % attr
+        r.check(ok, MI, "ParameterTable._get_call_parameters", "pk.%s = p.%s" % (attr, attr), gc.lineno,
+                "parse_parameter sets %s on every parameter (%s); the numbered copies of a vector parameter must carry it too, or "
+                "name1, name2 ... are interpreted differently from name" % (attr, pf.unparse(where)[:60]))
+    okc = ctor is not None and [pf.unparse(a) for a in ctor.value.args] == ["p.id + str(k)", "p.units", "p.default", "p.limits", "p.type", "p.description"]
+    r.check(okc, MI, "ParameterTable._get_call_parameters", pf.unparse(ctor)[:100] if ctor else "pk = Parameter(...)", gc.lineno,
+            "numbered copies keep units, default, limits and type")
+    init = mi.func("Parameter.__init__")
+    sig = pf.positional_params(init)[1:7]
+    r.check(sig == ["name", "units", "default", "limits", "ptype", "description"], MI, "Parameter.__init__", "signature %s" % sig, init.lineno)
+    # relative/absolute width plumbing (shared with C02)
+    from .c02 import rule_relative
+    rule_relative(r)
+    # table order -> C argument order is R-C09-args / R-C13-order
+
+
 RULES = [
+    ("R-C13-plumbing", 12, "vector expansion and width interpretation keep the declared meaning", rule_plumbing),
     ("R-C13-degree", 90, "return degrees of every model function match the documented scaling", make_rule("R-C13-degree", _c_results)),
     ("R-C13-homogeneous", 38, "no definite inhomogeneity inside the model functions", make_rule("R-C13-homogeneous", _c_results)),
     ("R-C13-order", 150, "C signatures do not contradict the parameter table", make_rule("R-C13-order", _o_results)),
